@@ -319,10 +319,14 @@ pub struct Proj {
     pub holdings: bool,
     /// compare error detail (ticker/date) and not only accept/reject + kind
     pub err_detail: bool,
+    /// compare only the per-disposal-day totals of the legs (quantity; money if `money`), not rules
+    pub legs_day_totals: bool,
+    /// do not compare legs at all
+    pub legs_none: bool,
 }
 impl Proj {
     pub fn full() -> Proj {
-        Proj { money: true, qty: true, legs_exact: true, holdings: true, err_detail: true }
+        Proj { money: true, qty: true, legs_exact: true, holdings: true, err_detail: true, legs_day_totals: false, legs_none: false }
     }
 }
 
@@ -347,7 +351,34 @@ pub fn fold_legs(legs: &[RLeg]) -> Vec<RLeg> {
     out
 }
 
+/// legs summed per disposal day (rule and acquisition date forgotten)
+pub fn day_totals(legs: &[RLeg]) -> Vec<RLeg> {
+    let mut out: Vec<RLeg> = Vec::new();
+    for l in legs {
+        if let Some(x) = out.iter_mut().find(|x| x.sell_date == l.sell_date) {
+            x.qty = x.qty.add(&l.qty);
+            x.cost = x.cost.add(&l.cost);
+            x.gain = x.gain.add(&l.gain);
+            x.gross = match (&x.gross, &l.gross) { (Some(a), Some(b)) => Some(a.add(b)), _ => None };
+            x.net = match (&x.net, &l.net) { (Some(a), Some(b)) => Some(a.add(b)), _ => None };
+        } else {
+            let mut c = l.clone();
+            c.rule = "*".into();
+            c.acq = None;
+            out.push(c);
+        }
+    }
+    out
+}
+
 pub fn diff_legs(ctx: &str, a: &[RLeg], b: &[RLeg], p: &Proj) -> Option<String> {
+    if p.legs_none { return None; }
+    if p.legs_day_totals {
+        let mut q = *p;
+        q.legs_day_totals = false;
+        q.legs_exact = true;
+        return diff_legs(ctx, &day_totals(a), &day_totals(b), &q);
+    }
     let (a, b) = if p.legs_exact { (a.to_vec(), b.to_vec()) } else { (fold_legs(a), fold_legs(b)) };
     if a.len() != b.len() {
         return Some(format!("{ctx}: impl has {} legs, model {}", a.len(), b.len()));
@@ -396,7 +427,13 @@ pub fn diff_match(a: &Out<Vec<RMatchT>>, b: &Out<Vec<RMatchT>>, p: &Proj) -> Opt
                             if p.qty { if let Some(d) = qdiff(&format!("{} pool quantity", s.ticker), q1, q2) { return Some(d); } }
                             if p.money { if let Some(d) = qdiff(&format!("{} pool cost", s.ticker), c1, c2) { return Some(d); } }
                         }
-                        (x1, y1) => return Some(format!("{} pool presence impl {:?} vs model {:?}", s.ticker, x1.is_some(), y1.is_some())),
+                        (x1, y1) => {
+                            // an empty pool and no pool are the same holding unless the projection is the full one
+                            let q = x1.as_ref().or(y1.as_ref()).map(|p| p.0.clone()).unwrap_or_else(Q::zero);
+                            if p.legs_exact && p.money || !q.is_zero() {
+                                return Some(format!("{} pool presence impl {:?} vs model {:?}", s.ticker, x1.is_some(), y1.is_some()));
+                            }
+                        }
                     }
                 }
             }
